@@ -218,3 +218,77 @@ func SiblingSkeletonCheck(c *Ctx, cfg string) {
 		}
 	}
 }
+
+
+// PairSkeletons: call/store skeletons of the functions two sibling packages
+// define under the same (mapped) names.
+func PairSkeletons(c *Ctx, cfg, pkgA, pkgB string, typeMap map[string]string, norm [][2]string) map[string][2][]string {
+	p := c.Prog(cfg)
+	out := map[string][2][]string{}
+	if p == nil {
+		return out
+	}
+	normalize := func(s string) string {
+		for _, n := range norm {
+			s = regexp.MustCompile(n[0]).ReplaceAllString(s, n[1])
+		}
+		return s
+	}
+	skel := func(fn *ssa.Function) []string {
+		d := apo.NewDescriber(fn)
+		a := apo.Analyze(fn, apo.AcceptSpec{})
+		set := map[string]bool{}
+		for _, b := range fn.Blocks {
+			for _, in := range b.Instrs {
+				switch x := in.(type) {
+				case ssa.CallInstruction:
+					if _, isB := x.Common().Value.(*ssa.Builtin); isB {
+						continue
+					}
+					n := apo.CalleeName(x.Common())
+					if strings.HasPrefix(n, "errors.") || strings.HasPrefix(n, "fmt.") {
+						continue
+					}
+					set[normalize(d.CallDesc(x.Common()))] = true
+				case *ssa.Store:
+					set[normalize("store "+d.Val(x.Addr)+" = "+d.Val(x.Val))] = true
+				}
+			}
+		}
+		for _, cd := range a.Conds() {
+			set[normalize("cond "+cd)] = true
+		}
+		var l []string
+		for s := range set {
+			l = append(l, s)
+		}
+		sort.Strings(l)
+		return l
+	}
+	for _, fn := range p.ModuleFuncs() {
+		n := shortFn(fn)
+		if fn.Parent() != nil || fn.Synthetic != "" {
+			continue
+		}
+		var other string
+		if strings.HasPrefix(n, pkgA+".") {
+			other = pkgB + "." + strings.TrimPrefix(n, pkgA+".")
+		} else {
+			for ta, tb := range typeMap {
+				pre := "(*" + pkgA + "." + ta + ")."
+				if strings.HasPrefix(n, pre) {
+					other = "(*" + pkgB + "." + tb + ")." + strings.TrimPrefix(n, pre)
+				}
+			}
+		}
+		if other == "" {
+			continue
+		}
+		fb := p.Fn(other)
+		if fb == nil || len(fb.Blocks) == 0 {
+			continue
+		}
+		out[n] = [2][]string{skel(fn), skel(fb)}
+	}
+	return out
+}
